@@ -394,8 +394,23 @@ string run_replay(const string &text) {
 }
 } // namespace
 
+#ifdef VERIF_FUZZ
+#include <fuzzer/FuzzedDataProvider.h>
+
+extern "C" int LLVMFuzzerInitialize(int *, char ***) { p_libsys_init(); va::install(); vl::fuzz_init(); return 0; }
+extern "C" int LLVMFuzzerTestOneInput(const uint8_t *data, size_t size) {
+  Case c; c.mode = 'R'; c.file.assign((const char *)data, size);
+  std::string text = to_text(c);
+  vl::set_current_case("fuzz", text);
+  Outcome o = run_case(c);
+  vl::stats().record(text, o.nontrivial, vl::fnv1a(c.file));
+  if (!o.verdict.empty()) vl::fuzz_report("fuzz", text, "C16:" + o.klass + ": " + o.verdict, o.klass);
+  return 0;
+}
+#else
 int main(int argc, char **argv) {
   p_libsys_init();
   va::install();
   return vl::harness_main(argc, argv, run_generated, run_replay);
 }
+#endif
